@@ -239,7 +239,8 @@ func MainConfine(args []string) int {
 	}
 	specials := []string{"/abs/path", "/etc/passwd", "//double", "a\x00b", "\x00", strings.Repeat("L", 300), strings.Repeat("../", 5) + "deep",
 		"blåbær/../../ø", "..", ".", "", " ", "a b", "..\\..\\win", "x/../../../l1/evil", "../sent/moved", "../../mbox/in/self", "NAME1/", "/",
-		"../neighbour.txt\x00", "..%2f..%2fx", "../../mbox", "../../mboxx", "../../mbox-1/in/EVIL", "../../mbox-1/in/THEIRS", "../../mbox.b2f/x", "../../mbox-1/out/Q", "~/.ssh/key", "con/../..", "a/./../../b"}
+		"../neighbour.txt\x00", "..%2f..%2fx", "../../mbox", "../../mboxx", "../../mbox-1/in/EVIL", "../../mbox-1/in/THEIRS", "../../mbox.b2f/x", "../../mbox-1/out/Q", strings.Repeat("日", 13) + "/../../../NAME1", strings.Repeat("Æ", 14) + "/../../../EVIL", strings.Repeat("ø", 40) + "/../../x",
+		"日/../../NAME1", "ÆØÅ/../../../NAME1", "~/.ssh/key", "con/../..", "a/./../../b"}
 	for _, s := range specials {
 		cases = append(cases, caseT{s, false, "special", nil})
 	}
